@@ -41,7 +41,7 @@ GCall(a) ==
                                       key |-> (HasZoneKey(a.key) \/ gest),
                                       window |-> MayBeInWindow(Inc, Exp, gclk)],
                              ttlmax |-> TtlMax(gclk),
-                             stray |-> HasStray(a.rr), mayStray |-> MayStraySecure,
+                             stray |-> HasStray(a), mayStray |-> MayStraySecure,
                              fresh |-> IF FreshSecure(a, gclk) THEN "Secure" ELSE "NotSecure"])
     /\ gest' = (gest \/ Establishes(a, gclk))
     /\ UNCHANGED <<gclk, gcfg>>
